@@ -49,7 +49,7 @@ CHECKS = {
         design="DESIGN.md §4 C05",
     ),
     "C06": dict(
-        rules="R06.1-R06.6, R05.3",
+        rules="R06.1-R06.7, R05.3",
         what="per-Op agreement of sources()/set_sources()/stolen() and PatchVisitor; borrow flag honoured by code generation; who may create IncRef/DecRef and which visit methods the post-refcount passes override; every emitter that initialises/traverses/clears/recycles instance storage covers the attributes of all classes in base_mro; pass order of compile_scc_to_ir",
         quant="function IR of all compiled programs, on every path",
         technique="sibling cross-check of the three declarations of each Op's operand set; who-may-create rule; CFG ordering of the pass pipeline",
